@@ -12,7 +12,7 @@ checks = {
              text="Every input of the workload that parses with zero errors is printed and compared byte for byte with the source, under every version; the provenance writer localises the first differing chunk; the real CLI (-pb) is run over generated directories of silently parsing files (HTML/shebang/open-tag starts, every ending; 5 versions; GOMAXPROCS 1/2/16) and every file must be left byte-identical.",
              note="Only silent parses the workload reaches are observed.", ref="§6 C02"),
  "C03": dict(technique="runtime monitor: two reference-model oracles — a grammar-directed program generator with expected derivation (tree-first, minimal parentheses from PHP's precedence table) and an independent precedence-climbing reference parser over random unparenthesised token strings (string-first)",
-             text="Generated valid programs of both families with their prescribed tree (kinds, roles, order, verbatim values) parsed under versions that have the syntax: any delivered error or structural difference refutes; PHP 7-only syntax must be rejected under 5.x and flexible heredocs before 7.3; random operator strings are judged by the reference parser (tree, or syntax error for non-associative chains). Construct, operator-pair and adjacent-operator coverage are reported.",
+             text="Generated valid programs of both families with their prescribed tree (kinds, roles, order, verbatim values, and the by-reference / variadic / static markers that this AST keeps as tokens) parsed under versions that have the syntax: any delivered error or structural difference refutes; PHP 7-only syntax must be rejected under 5.x and flexible heredocs before 7.3; random operator strings are judged by the reference parser (tree, or syntax error for non-associative chains). Construct, operator-pair and adjacent-operator coverage are reported.",
              note="Trusted: the generator's construct->(kind, roles) mapping and my reading of PHP's precedence table (encoded twice, independently: renderer and reference parser).", ref="§6 C03"),
  "C04": dict(technique="runtime monitor: token invariants (object identity, text, offsets, lines, order, tiling, free-floating classification, leaf values) on every returned tree against an independent line counter; online token-order hook; earlier trees re-read after later parses",
              text="For every tree returned on the workload: token text = source slice, offsets in range and increasing, lines = reference lines (LF, CRLF, lone CR), and for error-free parses exact tiling, free-floating attachment and classification, leaf value = token text.",
@@ -20,11 +20,11 @@ checks = {
  "C05": dict(technique="runtime monitor: node span oracle (min/max token offsets of the subtree, documented conventions) on error-free parses",
              text="For every node of every error-free tree of the workload: start/end = first/last own token under the documented conventions, nesting, sibling order, lines.",
              note="Conventions encoded are exactly those in the property text and DESIGN §6 C05.", ref="§6 C05"),
- "C06": dict(technique="runtime monitor over recorded error-callback event sequences; guaranteed-breaking edits (counting argument, deleted mandatory operands, PHP 5 compile-time errors, unterminated last heredoc) as fault injection; nesting depth up to 70 000 as a stress dimension; callback-vs-nil and nested-parse (re-entrancy) differential monitors",
-             text="Valid generated programs with an edit that is invalid by a bracket/operator counting argument must deliver >= 1 error, as must PHP 5 compile-time errors (trait extends/implements, reference key) and a lengthened closing label of the last heredoc, and programs from which a mandatory operand (catch variable, condition, right side of an assignment, class of new, member name ...; 27 node.role rules) was deleted; nesting constructs 60..70 000 deep must parse silently and completely when valid and deliver an error with one closer removed or one opener doubled; every delivered error is checked for message, range, line, order; callback vs nil trees compared by full fingerprint; the real CLI (-e -p) over directories of malformed files must print, per file, exactly the errors delivered for that file alone.",
+ "C06": dict(technique="runtime monitor over recorded error-callback event sequences; guaranteed-breaking edits (counting argument, deleted mandatory operands and last list elements, nested __halt_compiler, PHP 5 compile-time errors, unterminated last heredoc) as fault injection; nesting depth up to 70 000 as a stress dimension; callback-vs-nil and nested-parse (re-entrancy) differential monitors",
+             text="Valid generated programs with an edit that is invalid by a bracket/operator counting argument must deliver >= 1 error, as must PHP 5 compile-time errors (trait extends/implements, reference key) and a lengthened closing label of the last heredoc, and programs from which a mandatory operand (catch variable, condition, right side of an assignment, class of new, member name ...; 27 node.role rules) or the last element of a list without trailing separator (19 lists) was deleted, or into which __halt_compiler(); was inserted below the outermost level; nesting constructs 60..70 000 deep must parse silently and completely when valid and deliver an error with one closer removed or one opener doubled; every delivered error is checked for message, range, line, order; callback vs nil trees compared by full fingerprint; the real CLI (-e -p) over directories of malformed files must print, per file, exactly the errors delivered for that file alone.",
              note="'Invalid' is only asserted for edits invalid by construction.", ref="§6 C06"),
- "C07": dict(technique="runtime monitor: prefix-statement equality oracle, ordered-subsequence oracle on multi-error files (in 16 list contexts incl. closures inside interpolations), prefix oracle on truncated programs, and provenance checker on printed recovery trees",
-             text="Statement lists with a benign malformed statement inserted: preceding statements must equal their stand-alone parse (tokens, positions), following ones must be present; burst cases with up to 90 malformed statements between well-formed ones (top level, or inside one of 15 wrappers: function/method/closure bodies, blocks, alternative-syntax, try/finally bodies, closures written inside six interpolation forms), all of which must be found again in order; programs cut off behind a PRNG token: if a tree is returned, the complete top-level statements before the cut are its first statements, identical to the clean parse; every tree returned with errors is printed through the provenance writer: only source chunks, once, in order.",
+ "C07": dict(technique="runtime monitor: prefix-statement equality oracle, ordered-subsequence oracle on multi-error files (in 16 list contexts incl. closures inside interpolations), prefix oracle on truncated programs, block-containment oracle for a forgotten semicolon in the last statement of a braced list, and provenance checker on printed recovery trees",
+             text="Statement lists with a benign malformed statement inserted: preceding statements must equal their stand-alone parse (tokens, positions), following ones must be present; burst cases with up to 90 malformed statements between well-formed ones (top level, or inside one of 15 wrappers: function/method/closure bodies, blocks, alternative-syntax, try/finally bodies, closures written inside six interpolation forms), all of which must be found again in order; programs cut off behind a PRNG token: if a tree is returned, the complete top-level statements before the cut are its first statements, identical to the clean parse; a benign malformed statement must never cost the tree, nor the top-level statements behind the one it is in; every tree returned with errors is printed through the provenance writer: only source chunks, once, in order.",
              note="Statement lists only (member lists have no error production).", ref="§6 C07"),
  "C08": dict(technique="runtime monitor: metamorphic structure-equality oracle across trivia layouts of one abstract program",
              text="Each generated program is rendered under many trivia layouts (none/space/tab/LF/CRLF/CR/comments) permitted by PHP; all layouts must parse silently to the same structure projection.",
@@ -35,8 +35,8 @@ checks = {
  "C10": dict(technique="runtime monitor: differential full-fingerprint oracle between the PHP5 and PHP7 grammars on generated common-subset programs",
              text="Common-subset programs (no PHP7-only syntax, no uniform-variable-syntax regroupings) in many layouts (every 40th program spans several 1024-entry pool blocks) are parsed under 5.x and 7.x; kinds, values, tokens, free-floating content and positions must be identical.",
              note="Trusted: the generator's definition of the common subset (DESIGN §6 C10 scope decision).", ref="§6 C10"),
- "C11": dict(technique="Go race detector (twin run from a -race build, Gosched injection at the lexer hooks) over batches of concurrent pipelines; result equality against the sequential run computed afterwards; measured interleaving diversity; the real CLI under -race; sequential predecessor-independence monitor (Parse(X) repeated after offset-aligned predecessors); exactly-once presentation monitor for one Traverser shared by all goroutines; failing writers as injected faults",
-             text="Batches of 2..32 goroutines x GOMAXPROCS {1,2,4,16} run parse/print/dump/traverse/resolve/format pipelines (incl. a dump and a print into a writer that fails after a few bytes) on different inputs, concurrent phase first and the sequential baseline afterwards in the same process; every result must equal the baseline; the -race twin reports de-duplicated race reports as violations and runs the CLI worker pool over a generated directory (-d -r -e -p -pb), comparing rewritten files and the multiset of dumps with the results obtained alone; every fourth case re-parses one input after each of a list of predecessors (itself, truncations, escaped-byte variants sharing its offsets, unrelated inputs) and requires the first result every time; after each batch one shared Traverser walks all trees of the batch concurrently (counting visitor: every node exactly once; race twin: stateless visitor).",
+ "C11": dict(technique="Go race detector (twin run from a -race build, Gosched injection at the lexer hooks) over batches of concurrent pipelines; result equality against the sequential run computed afterwards; measured interleaving diversity; the real CLI under -race; sequential predecessor-independence monitor (Parse(X) repeated after offset-aligned predecessors); exactly-once presentation monitor for one Traverser shared by all goroutines; failing writers as injected faults; fresh-process baseline for one pipeline per batch and for literal-rich 'lexeme soup' jobs (persistent caches)",
+             text="Batches of 2..32 goroutines x GOMAXPROCS {1,2,4,16} run parse/print/dump/traverse/resolve/format pipelines (incl. a dump and a print into a writer that fails after a few bytes) on different inputs, concurrent phase first and the sequential baseline afterwards in the same process; every result must equal the baseline; the -race twin reports de-duplicated race reports as violations and runs the CLI worker pool over a generated directory (-d -r -e -p -pb), comparing rewritten files and the multiset of dumps with the results obtained alone; every fourth case re-parses one input after each of a list of predecessors (itself, truncations, escaped-byte variants sharing its offsets, unrelated inputs) and requires the first result every time; after each batch one shared Traverser walks all trees of the batch concurrently (counting visitor: every node exactly once; race twin: stateless visitor); one pipeline per batch (and every lexeme-soup job) is compared with the same pipeline run by a fresh process.",
              note="The race detector only sees interleavings that occur; diversity is measured and reported.", ref="§6 C11"),
  "C12": dict(technique="runtime monitor: recording visitor vs reflection pre-order oracle, exhaustive over node kinds x child-slot subsets, plus parsed trees",
              text="Every node kind of ast.Visitor x slot subsets (all 2^k for k<=12) traversed with a recording visitor and compared with the reflection pre-order; parsed trees additionally checked for shared node objects and sibling source order.",
